@@ -25,11 +25,14 @@ Two32     == 4294967296
 RealEpoch == -2208988800
 LastRef   == RealEpoch + 5 * Two32
 
-\* the old forward-only unfolding (self-test) / the code with the backward branch
+\* F: the old forward-only unfolding; W: the era chosen from whole seconds only (both
+\* self-tests, must be refuted); R: the specification's default
 F == INSTANCE NtpTime WITH NsPerSec <- RealNs, FracUnits <- Two32, EraSecs <- Two32, Epoch <- RealEpoch,
-       ForwardOnlyEraUnfold <- TRUE, RefSecs <- {0}, RefNs <- {0}, Offs <- {0}, NsVals <- {0}
+       ForwardOnlyEraUnfold <- TRUE, WholeSecondUnfold <- TRUE, RefSecs <- {0}, RefNs <- {0}, Offs <- {0}, NsVals <- {0}
+W == INSTANCE NtpTime WITH NsPerSec <- RealNs, FracUnits <- Two32, EraSecs <- Two32, Epoch <- RealEpoch,
+       ForwardOnlyEraUnfold <- FALSE, WholeSecondUnfold <- TRUE, RefSecs <- {0}, RefNs <- {0}, Offs <- {0}, NsVals <- {0}
 R == INSTANCE NtpTime WITH NsPerSec <- RealNs, FracUnits <- Two32, EraSecs <- Two32, Epoch <- RealEpoch,
-       ForwardOnlyEraUnfold <- FALSE, RefSecs <- {0}, RefNs <- {0}, Offs <- {0}, NsVals <- {0}
+       ForwardOnlyEraUnfold <- FALSE, WholeSecondUnfold <- FALSE, RefSecs <- {0}, RefNs <- {0}, Offs <- {0}, NsVals <- {0}
 
 Init ==
   \E r \in Int, rn \in Int, s \in Int, n \in Int, s2 \in Int, n2 \in Int :
@@ -53,6 +56,10 @@ OrderRepaired == (R!Judged(t, t0) /\ R!Judged(u, t0) /\ R!DiffNs(t, u) <= 0) =>
 \* the same with the old forward-only unfolding: must be refuted (era counterexample)
 RoundTripFaithful == F!Judged(t, t0) =>
   LET back == F!RT(t, t0) IN F!Within1ns(F!DiffNs(back, t)) /\ F!DiffNs(back, t) <= 0
+RoundTripWholeSec == W!Judged(t, t0) =>
+  LET back == W!RT(t, t0) IN W!Within1ns(W!DiffNs(back, t)) /\ W!DiffNs(back, t) <= 0
+OrderWholeSec == (W!Judged(t, t0) /\ W!Judged(u, t0) /\ W!DiffNs(t, u) <= 0) =>
+  W!DiffNs(W!RT(t, t0), W!RT(u, t0)) <= 0
 OrderFaithful == (F!Judged(t, t0) /\ F!Judged(u, t0) /\ F!DiffNs(t, u) <= 0) =>
   F!DiffNs(F!RT(t, t0), F!RT(u, t0)) <= 0
 =============================================================================
